@@ -593,17 +593,6 @@ theorem resultRows_having_error (q : AggStmt) (h : Expr) (hh : q.having = some h
         · simp only [hfr, Bool.false_eq_true, if_false]; exact ih key subs post _ k hpre' hrow hk
       · simp only [hd, Bool.false_eq_true, if_false]; rw [ih key subs post _ k hpre' hrow hk]
 
-/-- a pass that answers on every element answers -/
-theorem foldlM_unit_ok {α : Type} (f : Unit → α → Outcome Unit) : ∀ (xs : List α), (∀ x ∈ xs, f () x = .ok ()) →
-    (xs.foldlM f () : Outcome Unit) = .ok () := by
-  intro xs
-  induction xs with
-  | nil => intro _; rfl
-  | cons x xs ih =>
-    intro h
-    simp only [List.foldlM, bind, h x List.mem_cons_self, Outcome.bind]
-    exact ih (fun y hy => h y (List.mem_cons_of_mem _ hy))
-
 /-- **a group on which HAVING has no value (or no truth value) makes the RESULT that error**: the groups of the state
 in key order `pre ++ (key, subs) :: post`, every group has its row (the select-list cells evaluate), HAVING answers on
 the groups `pre` and is the error `k` on the next: then `execute_result` is the error `k` — no table, not a table
@@ -621,9 +610,8 @@ theorem having_error_is_result_error (q : AggStmt) (h : Expr) (hh : q.having = s
     (hrows (key, subs) (List.mem_append_right _ List.mem_cons_self)) hk
   unfold finalResult aggResult
   simp only [hgroups, bind, pure, Outcome.bind]
-  rw [foldlM_unit_ok _ (pre ++ (key, subs) :: post)
-    (fun g hg => by obtain ⟨row, hr⟩ := hrows g hg; simp only [hr])]
-  simp only [hres]
+  obtain ⟨cs, hcs⟩ := aggColumns_ok_of_rows hrows
+  simp only [hcs, hres]
 
 /-- **an error of the final result is the error of the run**: an aggregate statement whose input was read without
 failure and whose `execute_result` is the error `k` ends with the error `k` and prints no table -/
